@@ -9,12 +9,50 @@ PROFILES = ["debug", "release"]
 CORR_IMPORT = "From Coq Require Import Uint63.\nFrom RlibV Require Import C09.Model C09.Corr.\nOpen Scope Z_scope."
 CASE_TYPE = "case"
 AUDIT_IMPORT = ("From Coq Require Import ZArith List Bool.\nImport ListNotations.\n"
-                "From RlibV Require Import C09.Model C09.Properties.\nOpen Scope Z_scope.")
+                "From RlibV Require Import C09.Model C09.Spec C09.Properties.\nOpen Scope Z_scope.")
 EXPLAIN = "explain"
 AXIOM_ALLOW = []
 SHARD = 600
 SEARCH_MAX = 6000
-THEOREMS = []
+THEOREMS = [
+    ("c09_invariant",
+     "forall (BUF : Z) (dbg : bool) (ops : list op), 39 <= BUF -> Forall wf_op ops -> "
+     "exists s tr, exec BUF dbg ops init [] = Some (s, tr) "
+     "/\\ sink s ++ pending s = rendering ops /\\ zlen (pending s) <= BUF"),
+    ("c09_flush_delivers",
+     "forall (BUF : Z) (dbg : bool) (ops : list op), 39 <= BUF -> Forall wf_op ops -> "
+     "exists s tr, exec BUF dbg ops init [] = Some (s, tr) "
+     "/\\ sink (flush s) = rendering ops /\\ pending (flush s) = [] /\\ sink (drop s) = rendering ops "
+     "/\\ run BUF dbg ops = Some (rendering ops, flush_points ops 0)"),
+    ("c09_piece_any_capacity",
+     "forall (BUF : Z) (b : list byte) (s : state), 1 <= BUF -> zlen b <= BUF -> zlen (pending s) <= BUF -> "
+     "exists s', write_bytes BUF b s = Some s' "
+     "/\\ sink s' ++ pending s' = (sink s ++ pending s) ++ b /\\ zlen (pending s') <= BUF"),
+    ("c09_oversized_piece_panics",
+     "forall (BUF : Z) (b : list byte) (s : state), BUF < zlen b -> write_bytes BUF b s = None"),
+    ("c09_string_any_capacity",
+     "forall (BUF : Z) (dbg : bool) (b : list byte) (s : state), 1 <= BUF -> zlen (pending s) <= BUF -> "
+     "exists s', write BUF dbg (VStr b) s = Some s' "
+     "/\\ sink s' ++ pending s' = (sink s ++ pending s) ++ b /\\ zlen (pending s') <= BUF"),
+    ("c09_render_unsigned",
+     "forall (t : ity) (v : Z), is_signed t = false -> in_range t v = true -> "
+     "canonical_decimal (sdec v) v "
+     "/\\ exists L, BASE_10_LEN t = Some L /\\ zlen (sdec v) <= L "
+     "/\\ (v <> 0 -> digit_loop (Z.to_nat L) v [] = Some (sdec v))"),
+    ("c09_render_signed",
+     "forall (t : ity) (v : Z), is_signed t = true -> in_range t v = true -> "
+     "canonical_decimal (sdec v) v /\\ unsigned_abs (bits t) v = Z.abs v "
+     "/\\ exists L, BASE_10_LEN t = Some L /\\ zlen (sdec v) <= L + 1 "
+     "/\\ (v <> 0 -> digit_loop (Z.to_nat L) (unsigned_abs (bits t) v) [] = Some (sdec (Z.abs v)))"),
+    ("c09_base10len",
+     "forall t : ity, exists L, base_10_len (bits t) = Some L /\\ BASE_10_LEN t = Some L "
+     "/\\ 10 ^ (L - 1) <= 2 ^ bits t - 1 < 10 ^ L"),
+    ("c09_round_trip",
+     "forall (BUF : Z) (dbg : bool) (vs : list (ity * Z)), 39 <= BUF -> "
+     "Forall (fun p => in_range (fst p) (snd p) = true) vs -> "
+     "exists text, run BUF dbg [OWrite (VVec (int_values vs))] = Some (text, []) "
+     "/\\ parse_ints text = Some (map snd vs)"),
+]
 
 RULE = ("scripts of write / write_char / flush / out! / outln! over all 12 integer types (every type's MIN, MAX, 0, +-1, "
         "10^k-1, 10^k, 10^k+1, 9..9, random values of every bit length), ASCII strings (lengths 0, 1, BUF-1, BUF, BUF+1, "
@@ -135,6 +173,19 @@ def segs(b):
     return "[" + "; ".join(out) + "]"
 
 
+def irregular(b):
+    """number of bytes outside long runs"""
+    n, i = 0, 0
+    while i < len(b):
+        j = i
+        while j < len(b) and b[j] == b[i]:
+            j += 1
+        if j - i < 24:
+            n += j - i
+        i = j
+    return n
+
+
 def zv(n):
     """integer operand as limbs in base 10^18 (small ones stay ordinary numerals)"""
     if -1000 < n < 1000:
@@ -190,6 +241,9 @@ def coq_term(c, obs, profile):
         o = "Panic"
     else:
         data, fl, same, rb = r
+        if irregular(data) > 40000:
+            return "(Case %d %s [%s] (TooLong %d))" % (BUF[0], "true" if profile == "debug" else "false",
+                                                       "; ".join(op_term(x) for x in c["ops"]), len(data))
         o = "(Ret %s [%s] %s %s)" % (segs(data), ";".join(z(x) for x in fl), "true" if same else "false",
                                      "None" if rb is None else "(Some %s)" % ("true" if rb else "false"))
     return "(Case %d %s [%s] %s)" % (BUF[0], "true" if profile == "debug" else "false",
@@ -421,18 +475,18 @@ def generate(rng, tier):
     cases.append({"kind": "non-ascii", "sink": [2, 100, 9], "rt": 0,
                   "ops": [["w", ["s", "héllo 世界"]], ["c", 233], ["c", 0x4e16], ["c", 255], ["c", 256]]})
     # 2. random scripts
-    n_rand = 600 if quick else 12000
+    n_rand = 600 if quick else 5000
     for i in range(n_rand):
         r = rng.fork("s%d" % i)
         cases.append({"kind": "script", "sink": rand_sink(r), "rt": 0, "ops": rand_script(r, r.range(1, 10))})
     # 3. integer-only scripts, read back through Reader
-    n_int = 350 if quick else 8000
+    n_int = 350 if quick else 3000
     for i in range(n_int):
         r = rng.fork("i%d" % i)
         cases.append({"kind": "ints-readback", "sink": rand_sink(r), "rt": 1, "ops": rand_script(r, r.range(1, 8), True)})
     # 4. the 64 KiB boundary: fill levels BUF-45 .. BUF when a multi-byte piece starts
     ds = list(range(0, 46))
-    reps = 1 if quick else 6
+    reps = 1 if quick else 4
     for rep in range(reps):
         for d in ds:
             r = rng.fork("b%d/%d" % (rep, d))
@@ -470,9 +524,11 @@ def shrink_val(v):
                 out.append([k, v[1][:i] + v[1][i + 1:]])
             for w in shrink_val(v[1][i])[:2]:
                 out.append([k, v[1][:i] + [w] + v[1][i + 1:]])
-        if k == "t":
+        if k == "t" or len(v[1]) == 1:
             out.append(v[1][0])
     elif k == "nv":
+        if len(v[2]) == 1:
+            out.append(["i", v[1], v[2][0]])
         for i in range(len(v[2])):
             out.append(["nv", v[1], v[2][:i] + v[2][i + 1:]])
         if len(v[2]) > 4:
@@ -508,6 +564,41 @@ def shrink(c):
             if len(o[1]) == 1:
                 out.append(dict(c, ops=ops[:i] + [["w", o[1][0]]] + ops[i + 1:]))
     return out
+
+
+# ----------------------------------------------------------------------------- implementation-level search
+def extra(ctx, known):
+    """Consequences of the theorems checked directly on the implementation at a scale Coq does not run:
+    every 8/16-bit value and many random wider ones through ONE writer each (the release build crosses the
+    64 KiB boundary at arbitrary offsets with irregular data), compared with to_string, read back with Reader."""
+    thorough = ctx.tier == "thorough"
+    lines = []
+    for t in ("i8", "u8", "i16", "u16"):
+        lines.append("X %s all 1 0 %d %d" % (t, 4096 if t[1] != "8" else 3, 20))
+    n = 400000 if thorough else 30000
+    sinks = [(1000000, 0), (4099, 30)] + ([(1, 0), (65536, 500)] if thorough else [])
+    for t in ("i32", "u32", "i64", "u64", "i128", "u128", "isize", "usize"):
+        for k, (mc, intr) in enumerate(sinks):
+            lines.append("X %s rand %d %d %d %d" % (t, ctx.seed * 1000 + k, n, mc, intr))
+    viol, total_vals, total_bytes = [], 0, 0
+    for prof in PROFILES:
+        import _driver as D
+        outs = D.run_impl(ctx.bins[prof], lines)
+        for l, o in zip(lines, outs):
+            tk = o.split()
+            if len(tk) >= 2 and tk[0] == "X" and tk[1] == "ok":
+                total_vals += int(tk[2])
+                total_bytes += int(tk[3])
+            else:
+                viol.append({"name": "search-%s-%s" % (prof, l.split()[1]),
+                             "payload": {"what": "implementation-level search: the bytes delivered for a long stream of "
+                                                 "integers differ from the standard renderings, or Reader does not return "
+                                                 "the values (replay with the executor line below)",
+                                         "profile": prof, "executor_line": l, "executor_answer": o}})
+    return {"coverage": {"impl_search": {"values_written_and_read_back": total_vals, "bytes_delivered": total_bytes,
+                                         "executor_lines": len(lines) * len(PROFILES),
+                                         "note": "not a proof: to_string and Reader used as oracles on the Rust side"}},
+            "violations": viol[:3]}
 
 
 MANIFEST = {
